@@ -108,6 +108,22 @@ Section Generic.
     s_k (fst (rstep O c s t rel cont xs)) = s_k (upd c s t rel cont xs).
   Proof. destruct (rstep_fields c s t rel cont xs) as [_ [H _]]. exact H. Qed.
 
+  (* the ORDER of updates inside one step (harmonic::update / harmonic_walls::update / linear::update): centres, then the
+     force constant - whose TI accumulation reads dU/dk at the CURRENT values xs and at the centres just updated - then
+     energy and forces at the CURRENT values with the centres and force constant just updated, then the accumulated work
+     with those forces.  Nothing of the previous step's values enters. *)
+  Lemma rstep_order c s t rel cont xs :
+    let s1 := centers_update O c s t rel cont in
+    let s2 := fst (k_update O c s1 t rel cont xs) in
+    o_energy (snd (rstep O c s t rel cont xs)) = sumT O (map (@pot3 T) (terms O c s2 xs)) /\
+    o_forces (snd (rstep O c s t rel cont xs)) = map (@frc3 T) (terms O c s2 xs) /\
+    o_log (snd (rstep O c s t rel cont xs)) = snd (k_update O c s1 t rel cont xs) /\
+    fst (rstep O c s t rel cont xs) = work_k O c (work_centers O c s2 t rel (map (@frc3 T) (terms O c s2 xs))) rel xs.
+  Proof.
+    cbv zeta. unfold rstep. destruct (k_update O c (centers_update O c s t rel cont) t rel cont xs) as [s2 line].
+    cbn [fst snd o_energy o_forces o_log]. repeat split; reflexivity.
+  Qed.
+
   (* ---------------------------------------------------------------- the run protocol *)
   Definition ev_it (m : mstate) (e : event) : Z :=
     match e with EStep _ => if m_fresh m then m_it m else m_it m + 1 | _ => m_it m end.
